@@ -158,6 +158,13 @@ def run_case(case):
                 tmax += direction * abs(dt0)        # built by repeated addition: the FP coincidence the property names
         else:
             tmax = t0 + direction * nst * abs(dt0)
+        if kind == 'contract' and r.random() < 0.15:
+            # the target is tiny next to the start time (the run ends next to t=0): t + (tmax - t) then misses tmax by more than
+            # 1e-12 |tmax| and integrate() has to repeat its shortened last step
+            rel = 'target_near_zero'
+            tmax = r.choice([1, -1]) * 10 ** r.uniform(-14, -5)
+            sim.t = tmax - direction * nst * abs(dt0)
+            t0 = sim.t
         if tmax == t0:
             counters['degenerate_interval_skipped'] = counters.get('degenerate_interval_skipped', 0) + 1     # the interval rounds to nothing at this |t|: no direction to speak of
             continue
@@ -175,7 +182,12 @@ def run_case(case):
             # (a) direction
             for i in range(len(ts) - 1):
                 if (ts[i + 1] - ts[i]) * direction < 0:
-                    add('integrate:time-moves-against-direction', '%s: boundary %d t=%r -> %r' % (info, i, ts[i], ts[i + 1]))
+                    mech = 'integrate:time-moves-against-direction'
+                    if exact and i == len(ts) - 2 and i >= 1 and abs(ts[i + 1] - ts[i]) <= 4 * EPS * max(abs(t0), abs(ts[i - 1]), abs(tmax)) and abs(ts[i + 1] - tmax) <= (1e-12 * abs(tmax) if 1e-12 * abs(tmax) >= 1e-200 else 1e-12):
+                        # the shortened last step landed a rounding error (of the START time's magnitude) past a target that is tiny
+                        # next to it; integrate() then repeats the last step with dt = tmax - t < 0 to land on the target
+                        mech += ':repeated-last-step-steps-back-over-rounding-overshoot'
+                    add(mech, '%s: boundary %d t=%r -> %r' % (info, i, ts[i], ts[i + 1]))
                     break
             t_end = sim.t
             scale = max(abs(tmax), 1e-200)
@@ -211,6 +223,8 @@ def run_case(case):
                 last = abs(ts[-1] - ts[-2])
                 if last < abs(dt0) * (1 - 1e-9):
                     counters['last_step_shrunk'] += 1
+                    if abs(ts[-2] - ts[-3]) < abs(dt0) * (1 - 1e-9):
+                        counters['last_step_repeated'] = counters.get('last_step_repeated', 0) + 1     # two shortened steps in a row
             # (e) fixed step count and boundary times (not exact)
             if truly_fixed and not exact and rel != 'tiny_interval':
                 n = len(ts) - 1
@@ -369,12 +383,12 @@ def main(tier, seed):
         for c, rr in zip(cs, res):
             V.absorb(c, rr)
     inc = []
-    for k in ('calls', 'boundaries', 'last_step_shrunk', 'split_runs', 'status_cases', 'noop_calls', 'step_count_checked'):
+    for k in ('calls', 'boundaries', 'last_step_shrunk', 'last_step_repeated', 'split_runs', 'status_cases', 'noop_calls', 'step_count_checked'):
         if V.counters.get(k, 0) == 0:
             inc.append('monitor counter %s is zero' % k)
     return V.finish(
         rule="random planetary systems x integrator x direction x exact_finish_time x relation of dt to the interval (many/few steps, dt larger than the interval, exact integer multiples built by "
-             "repeated addition, tiny intervals) x start time; plus split runs, no-op calls and exit conditions (escape, encounter, halting collision, no particles, user stop at a chosen boundary); "
+             "repeated addition, tiny intervals, targets next to t=0 far from the start time so that the shortened last step has to be repeated) x start time; plus split runs, no-op calls and exit conditions (escape, encounter, halting collision, no particles, user stop at a chosen boundary); "
              "distinct = (monitor, integrator, direction, exact, relation / cuts / exit condition)",
         assumptions=["the heartbeat is called once at entry and once after every step (read from src/rebound.c)"], floor=40, inconclusive_if=inc)
 
